@@ -63,17 +63,26 @@ Definition p_poller (sc : scenario) (e : state * list state) : bool :=
   | _ => true
   end.
 
+(* the graceful path of Transport.Close (the one that takes implLock) is only entered after the
+   reader goroutine has returned — so it can never wait for a lock held by a blocked read *)
+Definition in_graceful (sc : scenario) (s : state) (t : tid) : bool :=
+  let b := if is_nc (sc_kind sc) then 2 else 0 in
+  Nat.leb (b + 2) (pc_of s t) && Nat.leb (pc_of s t) (b + 4).
+Definition p_graceful (sc : scenario) (s : state) : bool :=
+  implb (in_graceful sc s T_CLOSER1 || (sc_second sc && in_graceful sc s T_CLOSER2))
+        (exited_at (sys_of sc) s T_READER).
+
 Definition all_gone (sc : scenario) (s : state) : bool :=
   closers_returned sc s && forallb (exited_at (sys_of sc) s) [T_READER; T_USER; T_RPC].
 
-Definition CLOSER_BOUND := 7.   (* number of program points of the longest closer *)
+Definition CLOSER_BOUND := 8.   (* number of program points of the longest closer *)
 
 Definition ok_on (sc : scenario) (rs : list state) : bool :=
   let sy := sys_of sc in
   let es := edges sy rs in
   check_closed sy rs
   && forallb p_no_panic rs
-  && forallb (p_tclosed sc) rs
+  && (forallb (p_tclosed sc) rs && forallb (p_graceful sc) rs)
   && check_ef es (closers_returned sc) EF_FUEL
   && (check_mono es T_CLOSER1 && check_mono es T_CLOSER2
       && forallb (fun s => Nat.leb (pc_of s T_CLOSER1) CLOSER_BOUND
@@ -104,6 +113,7 @@ Record ok_parts (sc : scenario) (rs : list state) : Prop := mkParts {
   op_closed : check_closed (sys_of sc) rs = true;
   op_panic : forallb p_no_panic rs = true;
   op_tclosed : forallb (p_tclosed sc) rs = true;
+  op_graceful : forallb (p_graceful sc) rs = true;
   op_ef : check_ef (edges (sys_of sc) rs) (closers_returned sc) EF_FUEL = true;
   op_mono1 : check_mono (edges (sys_of sc) rs) T_CLOSER1 = true;
   op_mono2 : check_mono (edges (sys_of sc) rs) T_CLOSER2 = true;
@@ -125,6 +135,7 @@ Proof.
   apply andb_true_iff in H. destruct H as [H Hef].
   apply andb_true_iff in H. destruct H as [H Htc].
   apply andb_true_iff in H. destruct H as [Hcl Hpan].
+  apply andb_true_iff in Htc. destruct Htc as [Htc Hgr].
   apply andb_true_iff in Hm. destruct Hm as [Hm Hb].
   apply andb_true_iff in Hm. destruct Hm as [Hm1 Hm2].
   apply orb_true_iff in Hgone.
@@ -153,6 +164,20 @@ Proof.
   intros sc H sched Hr. destruct (parts_of sc H).
   pose proof (safety_all label (sys_of sc) _ (p_tclosed sc) op_closed0 op_tclosed0 sched) as P.
   unfold p_tclosed in P. rewrite Hr in P. exact P.
+Qed.
+
+(* a closer inside Transport.Close(false) (Lock .. Impl.Close .. Unlock) implies the reader is gone *)
+Theorem graceful_only_after_reader_exit : forall sc, in_scope sc = true ->
+  forall sched t, (t = T_CLOSER1 \/ (t = T_CLOSER2 /\ sc_second sc = true)) ->
+    in_graceful sc (exec (sys_of sc) sched) t = true ->
+    exited_at (sys_of sc) (exec (sys_of sc) sched) T_READER = true.
+Proof.
+  intros sc H sched t Ht Hg. destruct (parts_of sc H).
+  pose proof (safety_all label (sys_of sc) _ (p_graceful sc) op_closed0 op_graceful0 sched) as P.
+  unfold p_graceful in P.
+  destruct Ht as [->|[-> H2]].
+  - rewrite Hg in P. exact P.
+  - rewrite Hg, H2 in P. rewrite orb_true_r in P. exact P.
 Qed.
 
 (* AG EF returned: whatever has happened, the Close calls can still all return *)
@@ -293,6 +318,64 @@ Definition w_poller_stranded_noclose : sched :=
 Theorem rpc_poller_can_be_stranded_without_close :
   goal_poller_stranded_noclose (exec (sys_of sc_rpc) w_poller_stranded_noclose) = true.
 Proof. vm_compute. reflexivity. Qed.
+
+(* (3) the System transport: the forced close assigns the plain field `fd` while the reader loads
+   it — a data race; and that is the only one: every racy state has a closer at the `t.fd = nil`
+   of a FORCED close (program point 8 of [system_closer_code]) *)
+Definition sys_fd1 := system_sys TcEOF false.
+Definition w_fd_race : sched :=
+  Eval vm_compute in match find sys_fd1 (races sys_fd1) with Some w => w | None => [] end.
+Theorem system_fd_race : races sys_fd1 (exec sys_fd1 w_fd_race) = true.
+Proof. vm_compute. reflexivity. Qed.
+
+Definition p_fd_forced (second : bool) (tc : tcb) (s : state) : bool :=
+  implb (races (system_sys tc second) s)
+        (Nat.eqb (pc_of s T_CLOSER1) 8 || Nat.eqb (pc_of s T_CLOSER2) 8).
+Definition system_ok_on (second : bool) (tc : tcb) (rs : list state) : bool :=
+  check_closed (system_sys tc second) rs && forallb (p_fd_forced second tc) rs
+  && forallb p_no_panic rs.
+Definition system_reach (second : bool) (tc : tcb) : list state :=
+  fst (reach (system_sys tc second) FUEL).
+Lemma system_all_ok :
+  forallb (fun b2 => forallb (fun tc => system_ok_on b2 tc (system_reach b2 tc)) all_tcs)
+          all_bools = true.
+Proof. vm_cast_no_check (eq_refl true). Qed.
+
+Lemma system_ok_of : forall second tc, system_ok_on second tc (system_reach second tc) = true.
+Proof.
+  intros second tc.
+  assert (Hb : In second all_bools) by (destruct second; cbn; tauto).
+  assert (Ht : In tc all_tcs) by (destruct tc; cbn; tauto).
+  exact (proj1 (forallb_forall (fun tc => system_ok_on second tc (system_reach second tc)) all_tcs)
+               (proj1 (forallb_forall
+                         (fun b2 => forallb (fun tc => system_ok_on b2 tc (system_reach b2 tc)) all_tcs)
+                         all_bools) system_all_ok second Hb) tc Ht).
+Qed.
+
+Lemma system_ok_on_parts : forall second tc rs, system_ok_on second tc rs = true ->
+  check_closed (system_sys tc second) rs = true /\
+  forallb (p_fd_forced second tc) rs = true /\ forallb p_no_panic rs = true.
+Proof.
+  intros second tc rs A. unfold system_ok_on in A.
+  apply andb_true_iff in A. destruct A as [A Hp].
+  apply andb_true_iff in A. destruct A as [Hc Hf]. auto.
+Qed.
+
+Theorem system_fd_race_only_forced : forall second tc (sched : sched),
+  let s := exec (system_sys tc second) sched in
+  panic s = 0 /\
+  (races (system_sys tc second) s = true ->
+   pc_of s T_CLOSER1 = 8 \/ pc_of s T_CLOSER2 = 8).
+Proof.
+  intros second tc sched s.
+  destruct (system_ok_on_parts second tc _ (system_ok_of second tc)) as (Hc & Hf & Hp).
+  split.
+  - apply Nat.eqb_eq. exact (safety_all label _ _ p_no_panic Hc Hp sched).
+  - intros Hr.
+    pose proof (safety_all label _ _ (p_fd_forced second tc) Hc Hf sched) as P.
+    unfold p_fd_forced in P. fold s in P. rewrite Hr in P. cbn [implb] in P.
+    apply orb_true_iff in P. destruct P as [P|P]; apply Nat.eqb_eq in P; auto.
+Qed.
 
 (* ---------- ORIGINAL code: refutations by witness schedule ---------- *)
 
